@@ -24,6 +24,10 @@ type ProgGen struct {
 	NoPrint  bool
 	// knobs
 	PrintPct  int  // chance of a print before each term (default 9)
+	forceExplicit bool
+	wantExplicit  bool
+	UniformNames  bool // with LocalNames: one stem for all binders
+	LocalNames    bool // name counters per declaration instead of one per program
 	Recursive bool // add scenarios over recursive types (naturals, servers)
 	MaxTyDepth int
 }
@@ -42,7 +46,27 @@ func (g *ProgGen) feat(s string) {
 
 func (g *ProgGen) fresh(p string) string {
 	g.nvar++
+	if g.UniformNames {
+		// one stem for every kind of binder: a parameter of one function is spelled like a cut, a
+		// received name or the provider alias of another
+		p = "k"
+	}
 	return fmt.Sprintf("%s%d", p, g.nvar)
+}
+
+// scoped runs f with a name counter of its own when the program uses local naming: names are
+// then unique within one declaration but recur across declarations (x1, y2, … in every
+// function), as in hand-written programs. Lexical scoping makes that harmless; an interpreter
+// that substitutes by spelling may not agree.
+func (g *ProgGen) scoped(f func()) {
+	if !g.LocalNames {
+		f()
+		return
+	}
+	saved := g.nvar
+	g.nvar = 0
+	f()
+	g.nvar = saved
 }
 
 func (g *ProgGen) unf(t *ast.Ty) *ast.Ty { return g.Env.Unfold(t) }
@@ -157,20 +181,27 @@ func (g *ProgGen) mk(B *ast.Ty) (string, *ast.Term) {
 func (g *ProgGen) newFun(params []Var, ret *ast.Ty) *ast.Decl {
 	g.nfun++
 	d := &ast.Decl{Kind: ast.DFun, Name: fmt.Sprintf("f%d", g.nfun), Ty: g.ann(ret)}
-	var ps []Var
-	for _, p := range params {
-		v := Var{g.fresh("a"), p.T}
-		ps = append(ps, v)
-		d.Params = append(d.Params, ast.Param{Name: v.N, Ty: g.ann(p.T)})
-	}
+	force := g.forceExplicit
+	g.forceExplicit = false
 	g.Funs = append(g.Funs, d)
-	d.Body = g.Term(ps, ret)
-	if d.Body != nil && g.Chance(12, "explicit") {
-		w := g.fresh("w")
-		d.Explicit = w
-		renameSelf(d.Body, w, g)
-		g.feat("explicit-provider")
-	}
+	savedWant := g.wantExplicit
+	g.wantExplicit = false
+	defer func() { g.wantExplicit = savedWant }()
+	g.scoped(func() {
+		var ps []Var
+		for _, p := range params {
+			v := Var{g.fresh("a"), p.T}
+			ps = append(ps, v)
+			d.Params = append(d.Params, ast.Param{Name: v.N, Ty: g.ann(p.T)})
+		}
+		d.Body = g.Term(ps, ret)
+		if d.Body != nil && (force || g.wantExplicit && g.Chance(70, "explicitcaller") || g.Chance(18, "explicit")) {
+			w := g.fresh("w")
+			d.Explicit = w
+			renameSelf(d.Body, w, g)
+			g.feat("explicit-provider")
+		}
+	})
 	return d
 }
 
@@ -198,7 +229,9 @@ func renameSelf(t *ast.Term, w string, g *ProgGen) {
 	case ast.TFwd:
 		r(&t.X)
 	case ast.TCall:
-		if len(t.Args) > 0 {
+		if len(t.Args) > 0 && t.Args[0].Self && g.Chance(70, "passexplicit") {
+			t.Args[0] = ast.Nm{S: w, Pol: t.Args[0].Pol}
+		} else if len(t.Args) > 0 {
 			r(&t.Args[0])
 		}
 	}
@@ -229,14 +262,45 @@ func (g *ProgGen) Term(ctx []Var, A *ast.Ty) *ast.Term {
 		g.feat("fwd")
 		return &ast.Term{Kind: ast.TFwd, X: g.self(A), Y: g.nm(ctx[0].N, ctx[0].T)}
 	}
-	if g.budget > 0 && g.Chance(6, "tailcall") {
-		// hand everything to a new function: f(ctx) or f(self, ctx)
+	if g.budget > 0 && g.Chance(8, "tailcall") {
+		// hand everything to a new function: f(ctx) or f(self, ctx); a callee that is handed the
+		// provider explicitly is more often one that names its provider itself
+		withSelf := g.Chance(35, "explicitself")
+		if withSelf && g.Chance(60, "explicitcallee") {
+			g.forceExplicit = true
+		}
 		f := g.newFun(ctx, A)
 		g.feat("tail-call")
+		if withSelf && f.Explicit != "" && g.Chance(50, "relay") {
+			// an intermediate `let relay[w : A, params] = f(w, params)`: the provider travels under
+			// the relay's own name for it
+			g.nfun++
+			rl := &ast.Decl{Kind: ast.DFun, Name: fmt.Sprintf("f%d", g.nfun), Ty: g.ann(A)}
+			g.scoped(func() {
+				call := &ast.Term{Kind: ast.TCall, Fn: f.Name}
+				for _, v := range ctx {
+					n := g.fresh("a")
+					rl.Params = append(rl.Params, ast.Param{Name: n, Ty: g.ann(v.T)})
+					call.Args = append(call.Args, g.nm(n, v.T))
+				}
+				rl.Explicit = g.fresh("w")
+				call.Args = append([]ast.Nm{ast.N(rl.Explicit)}, call.Args...)
+				rl.Body = call
+			})
+			g.Funs = append(g.Funs, rl)
+			g.feat("explicit-provider-relayed-by-name")
+			f = rl
+			// called without `self` the relay keeps its own name for the provider
+			withSelf = g.Chance(40, "relaywithself")
+		}
 		t := &ast.Term{Kind: ast.TCall, Fn: f.Name}
-		if g.Chance(35, "explicitself") {
+		if withSelf {
 			t.Args = append(t.Args, ast.SelfNm)
 			g.feat("call-with-self")
+			if f.Explicit != "" {
+				g.feat("explicit-provider-called-with-self")
+				g.wantExplicit = true // the caller should name its provider too, and pass it by that name
+			}
 		}
 		for _, v := range ctx {
 			t.Args = append(t.Args, g.nm(v.N, v.T))
@@ -479,6 +543,8 @@ func (g *ProgGen) elim(ctx []Var, A *ast.Ty) *ast.Term {
 func NewProgGen(d D) *ProgGen {
 	tg := &TyGen{D: d, MaxDepth: 2, Acyclic: true}
 	g := &ProgGen{D: d, TG: tg, budget: 30}
+	g.LocalNames = d.Chance(60, "localnames")
+	g.UniformNames = g.LocalNames && d.Chance(50, "uniformnames")
 	n := d.Int(0, 4, "ntypes")
 	g.TypeDecl = tg.Env(n, "T")
 	env, ill := reftypes.Resolve(g.TypeDecl)
@@ -542,19 +608,19 @@ func (g *ProgGen) Program() *ast.Program {
 	}
 	if g.Recursive {
 		if g.Chance(55, "natscenario") {
-			g.natScenario(0)
+			g.scoped(func() { g.natScenario(0) })
 		}
 		if g.Chance(45, "serverscenario") {
-			g.serverScenario(0)
+			g.scoped(func() { g.serverScenario(0) })
 		}
 		if g.Chance(40, "counterscenario") {
-			g.counterScenario(0)
+			g.scoped(func() { g.counterScenario(0) })
 		}
 		if g.Chance(35, "relayscenario") {
-			g.relayScenario(0)
+			g.scoped(func() { g.relayScenario(0) })
 		}
 		if g.Chance(50, "sessionscenario") {
-			g.sessionScenario(0)
+			g.scoped(func() { g.sessionScenario(0) })
 		}
 	}
 	if g.dead {
